@@ -107,6 +107,8 @@ def run(tier, seed):
         if events:
             s = {k: events[0][k] for k in ("op", "id", "rel", "p", "level", "endom", "pairf") if k in events[0]}
             ev.add_samples([s], limit=1)
+    if os.environ.get("C18_EXT") == "1":
+        total += ext_sweep(ev, wd, known_file, violations, quick)
     # the binary-field polynomials and binary curves of the pinned build (model/FbSpec: polynomial irreducible,
     # generator on the curve, order prime and annihilating, Hasse interval, cofactor class, Koblitz flag, level),
     # through the driver and trace specification of C16
@@ -132,6 +134,102 @@ def run(tier, seed):
     ev.violations = len(violations)
     ev.write()
     return 1 if violations else 0
+
+
+# ----------------------------------------------------------------------------
+# field-size sweep (C18_EXT): every id accepted in the builds of the k = 8, 16, 18, 24, 48 families and of
+# the other BN / BLS12 sizes
+# ----------------------------------------------------------------------------
+SWEEP = ["fp315", "fp317", "fp330", "fp354", "fp377", "fp382", "fp383", "fp446", "fp455", "fp508", "fp509", "fp510", "fp511",
+         "fp544", "fp569", "fp575", "fp638", "fp765", "fp766", "fp768"]
+SWEEP_QUICK = ["fp315"]
+# what ep_param_set accepts in these builds on the unchanged tree (probe): a set that can no longer be selected is a violation
+EXPECTED_SWEEP = {"fp315": [25], "fp317": [26], "fp330": [27], "fp354": [28], "fp377": [29], "fp382": [16, 31], "fp383": [17, 32],
+                  "fp446": [33, 34], "fp455": [35], "fp508": [36], "fp509": [37], "fp510": [38], "fp511": [19], "fp544": [40],
+                  "fp569": [41], "fp575": [42], "fp638": [43, 44, 45, 46], "fp765": [47], "fp766": [48, 49], "fp768": [50]}
+
+
+def ext_relations_of(e):
+    rels = list(BASE)
+    if e.get("endom") == 1:
+        rels += ENDOM
+    if e.get("pairf"):
+        # the twist relations are written for the quadratic twist field of k = 12; the other embedding degrees keep the
+        # relations that do not depend on the twist (the G2 generators of those families are judged by C04's sweep)
+        rels += (PAIR if e.get("embed") == 12 else ["EmbeddingDegree"]) + ["FamilyAtSize"]
+    return rels
+
+
+def ext_sweep(ev, wd, known_file, violations, quick):
+    only = os.environ.get("C18_EXT_ONLY")
+    cfgs = only.split(",") if only else (SWEEP_QUICK if quick else SWEEP)
+    shards = int(os.environ.get("C18_EXT_SHARDS", core.NCPU))
+    total = 0
+    known_hits = {}
+    for cfg in cfgs:
+        try:
+            ids, dumps, exe = dump(cfg, wd)
+        except core.InfraError as ex:
+            ev.cov["parts"][cfg] = dict(skipped="build or dump failed on this tree: " + str(ex)[-300:])
+            core.log("C18 sweep %s skipped: %s" % (cfg, str(ex)[-200:]))
+            continue
+        for want in EXPECTED_SWEEP.get(cfg, []):
+            if want not in ids:
+                rp = core.save_replay("C18", dict(property="C18", cfg=cfg, id=want, rel="Selectable", event={}),
+                                      name="%s-%s-Selectable" % (cfg, want))
+                violations.append((rp, "cfg=%s id=%s: a parameter set of this build can no longer be selected" % (cfg, want)))
+        if not ids:
+            ev.cov["parts"][cfg] = dict(skipped="no parameter id is accepted by ep_param_set in this build")
+            continue
+        events = []
+        for dct in list(dumps):
+            if dct.get("id", -1) <= 0:
+                rp = core.save_replay("C18", dict(property="C18", cfg=cfg, id=-dct.get("id", 0), rel="SelectableAfterOthers", event={}),
+                                      name="%s-%s-SelectableAfterOthers" % (cfg, -dct.get("id", 0)))
+                violations.append((rp, "cfg=%s id=%s: selection fails after other sets were selected in the same context"
+                                   % (cfg, -dct.get("id", 0))))
+                continue
+            for rel in ext_relations_of(dct):
+                e = dict(dct)
+                e["rel"] = rel
+                e["i"] = len(events)
+                events.append(e)
+        v = core.validate_trace("trace/ParamTrace.tla", events, os.path.join(wd, "tlc-" + cfg), shards=shards,
+                                env={"KNOWN": known_file}, min_per_shard=3, timeout=2400, continue_after=True, heap="4g")
+        core.log("C18/%s: ids %s, %d relation events, accepted %d, rejected %d, %.1fs"
+                 % (cfg, ids, len(events), v.accepted, len(v.rejected), v.wall))
+        if v.infra:
+            raise core.InfraError("\n".join(v.infra)[:3000])
+        for k in v.known:
+            key = k.split(",")[0].strip().strip('"')
+            known_hits[key] = known_hits.get(key, 0) + 1
+        for (e, shard, idx) in v.rejected:
+            ids2, dumps2, _ = dump(cfg, os.path.join(wd, "confirm"))
+            e2 = [dict(x) for x in dumps2 if x.get("id") == e["id"]]
+            confirmed = True
+            if e2:
+                e2[0]["rel"] = e["rel"]
+                e2[0]["i"] = 0
+                v2 = core.validate_trace("trace/ParamTrace.tla", e2[:1], os.path.join(wd, "tlc-confirm"), shards=1,
+                                         env={"KNOWN": known_file}, timeout=1200)
+                confirmed = bool(v2.rejected)
+            if confirmed:
+                rp = core.save_replay("C18", dict(property="C18", cfg=cfg, id=e["id"], rel=e["rel"], event=e),
+                                      name="%s-%s-%s" % (cfg, e["id"], e["rel"]))
+                violations.append((rp, "cfg=%s id=%s relation=%s" % (cfg, e["id"], e["rel"])))
+        total += len(events)
+        ev.cov["traces_validated_against_impl"] += v.accepted
+        ev.cov["evaluations"] += len(events)
+        ev.cov["distinct_nontrivial"] += len(events)
+        ev.cov["parts"][cfg] = dict(ids=ids, relation_events=len(events), accepted=v.accepted, rejected=len(v.rejected),
+                                    sets=["%d: k=%s family=%s level=%s" % (d.get("id"), d.get("embed"), d.get("fam"), d.get("level"))
+                                          for d in dumps if d.get("id", 0) > 0])
+        ev.cov["configs"].append(cfg)
+    for key, n in known_hits.items():
+        kf = [k for k in core.known_findings("C18") if k.get("key") == key]
+        print("KNOWN-FINDING: property=C18 %s (%d events) %s" % (key, n, (kf[0].get("what", "") if kf else "")[:200]))
+    ev.cov.setdefault("known_hits", {}).update(known_hits)
+    return total
 
 
 def replay(path, seed):
